@@ -47,7 +47,7 @@ var c19Protos = []c19Proto{
 
 func init() {
 	Registry["C19"] = Spec{
-		Pkgs: map[string][]string{"execution": {"subscription", "websocket"}},
+		Pkgs: map[string][]string{"execution": {"subscription", "websocket"}, "v2": {"graphqlerrors"}},
 		Run:  runC19,
 		Explanation: "Decides the structural half of 'the WebSocket server obeys graphql-ws / graphql-transport-ws on any message sequence': " +
 			"(R1) under graphql-transport-ws Engine.StartOperation is dominated by connectionInitialized, the not-initialised edge closes with 4401, a second init closes with 4429 and is neither acknowledged nor re-run, the flag/ack are reached only after the init callback's error was seen nil, an init error closes with a 44xx code and never starts the heartbeat, unknown type and JSON syntax errors close with 4400, the init timer is wired to connection-open and its action closes with 4408, a duplicate id is detected before the table is overwritten, stops StartOperation before the goroutine starts and closes with 4409; " +
@@ -58,6 +58,8 @@ func init() {
 			"(R7) close frames are written under the same mutex as data frames. " +
 			"It does not decide acceptance of whole output traces by the protocol automata (interleavings of engine events with client messages).",
 		Mutants: []Mutant{
+			{Name: "a report with internal errors only is converted by the HTTP helper, which answers nil (seeded change C19-13)", File: "v2/pkg/graphqlerrors/errors.go", Rule: "C19-R15", Key: "RequestErrorsFromError/error-payload-never-empty",
+				Old: "\tif errors.As(err, &report) {\n\t\tif len(report.ExternalErrors) == 0 {\n", New: "\tif errors.As(err, &report) {\n\t\tif len(report.ExternalErrors) >= 0 {\n\t\t\treturn RequestErrorsFromOperationReport(report)\n\t\t}\n\t\tif len(report.ExternalErrors) == 0 {\n"},
 			{Name: "the finished query releases its id a second time on its way out (reverts the F60 fix)", File: "execution/subscription/engine.go", Rule: "C19-R14", Key: "ExecutorEngine.handleNonSubscriptionOperation/id-released-only-while-owned",
 				Old: "\t\t// the id is not released here: that has happened before the terminal message was written,\n\t\t// and by now the client may have started another operation under the same id\n", New: "\t\te.subCancellations.Cancel(id)\n"},
 			{Name: "the subscription goroutine releases its id when it ends (seeded change C19-1)", File: "execution/subscription/engine.go", Rule: "C19-R14", Key: "ExecutorEngine.startSubscription/id-released-only-while-owned",
@@ -419,6 +421,7 @@ func runC19(r *fw.Run) {
 	defer c19CompleteOnlyForActiveIds(r)
 	defer c19IdReleasedBeforeTerminalMessage(r)
 	defer c19IdReleasedOnlyWhileOwned(r)
+	defer c19ErrorPayloadNeverEmpty(r)
 	p := r.Prog
 	ws, sub := p.Pkg("websocket"), p.Pkg("subscription")
 	if ws == nil || sub == nil {
@@ -2339,4 +2342,145 @@ func c19IdReleasedOnlyWhileOwned(r *fw.Run) {
 			"subscriptionCancellations.Cancel(id) at "+bad+" is reachable after the goroutine stopped owning the id (it was released before, a terminal event was emitted, or the context was done): the client may have started a new operation under the same id by then, and this release cancels that operation")
 	}
 	r.Expect("C19-R14", "operation goroutines of ExecutorEngine", n, 2)
+}
+
+// c19ErrorPayloadNeverEmpty (R15): both protocols prescribe the payload of a terminal `error` message as a non-empty list
+// of GraphQL errors (graphql-transport-ws clients close with 4400 on anything else). Both write handlers build that
+// payload with graphqlerrors.RequestErrorsFromError(err); a nil or empty result is marshalled as "payload":null. Every
+// return of that function (and of the helpers it returns the result of) therefore yields a list that is non-empty by
+// construction: a literal with at least one element, the value errors.As extracted from the error itself, a list that a
+// loop appends to where the ranged collection is known to be non-empty, or the result of a function with the same property.
+func c19ErrorPayloadNeverEmpty(r *fw.Run) {
+	p := r.Prog
+	r.Rule("C19-R15", "graphqlerrors.RequestErrorsFromError — the payload of every `error` message of both protocols — returns a list that is non-empty by construction on every path")
+	// the function is found by its role: the argument of Writer.WriteError in the write event handlers
+	var targets []*fw.FuncInfo
+	seenT := map[*fw.FuncInfo]bool{}
+	for _, fi := range p.Funcs("websocket") {
+		info := fi.Info()
+		fw.WalkAll(fi.Decl.Body, func(nd ast.Node) bool {
+			c, ok := nd.(*ast.CallExpr)
+			if !ok {
+				return true
+			}
+			if fn := fw.Callee(info, c); fn == nil || fn.Name() != "WriteError" || len(c.Args) != 2 {
+				return true
+			}
+			if inner, isCall := ast.Unparen(c.Args[1]).(*ast.CallExpr); isCall {
+				// the callee lives in the other module of the workspace: resolve it by path and name
+				if fn := fw.Callee(info, inner); fn != nil && fn.Pkg() != nil && fn.Pkg().Path() == fw.PkgPath("graphqlerrors") {
+					if callee := p.Func("graphqlerrors", fw.FuncName(fn)); callee != nil && !seenT[callee] {
+						seenT[callee] = true
+						targets = append(targets, callee)
+					}
+				}
+			}
+			return true
+		})
+	}
+	memo := map[*fw.FuncInfo]string{}
+	var whyEmpty func(fi *fw.FuncInfo, depth int) string // "" = never empty
+	whyEmpty = func(fi *fw.FuncInfo, depth int) string {
+		if w, ok := memo[fi]; ok {
+			return w
+		}
+		if depth > 3 {
+			return "helper chain too deep at " + fi.Name()
+		}
+		memo[fi] = "" // recursion guard
+		info := fi.Info()
+		// v appended to directly in the body of a range loop over C  →  appendedIn[v] = keys of C
+		appendedIn := map[types.Object][]string{}
+		fw.WalkAll(fi.Decl.Body, func(nd ast.Node) bool {
+			rs, ok := nd.(*ast.RangeStmt)
+			if !ok {
+				return true
+			}
+			for _, st := range rs.Body.List {
+				as, isAs := st.(*ast.AssignStmt)
+				if !isAs || len(as.Lhs) != 1 || len(as.Rhs) != 1 {
+					continue
+				}
+				id, isID := as.Lhs[0].(*ast.Ident)
+				c, isCall := ast.Unparen(as.Rhs[0]).(*ast.CallExpr)
+				if isID && isCall && fw.Builtin(info, c) == "append" && len(c.Args) >= 2 {
+					appendedIn[info.ObjectOf(id)] = append(appendedIn[info.ObjectOf(id)], fw.ExprKey(info, rs.X))
+				}
+			}
+			return true
+		})
+		asTargets := map[types.Object]bool{} // errors.As(err, &v)
+		why := ""
+		in := fw.NewInterp(fi)
+		in.H = fw.Hooks{
+			Cond: func(e ast.Expr, branch bool, st *fw.State) {
+				op, leaves := fw.NNF(info, e, branch)
+				if op != "atom" && op != "and" {
+					return
+				}
+				for _, a := range leaves {
+					if a.Kind == "NonEmpty" {
+						st.Set("nonempty:" + fw.ExprKey(info, a.X))
+					}
+					if a.Kind == "True" {
+						if c, isCall := ast.Unparen(a.X).(*ast.CallExpr); isCall && len(c.Args) == 2 {
+							if fn := fw.Callee(info, c); fn != nil && fn.Name() == "As" {
+								if u, isAddr := ast.Unparen(c.Args[1]).(*ast.UnaryExpr); isAddr && u.Op == token.AND {
+									if id, isID := ast.Unparen(u.X).(*ast.Ident); isID {
+										asTargets[info.ObjectOf(id)] = true
+										st.Set("extracted:" + id.Name)
+									}
+								}
+							}
+						}
+					}
+				}
+			},
+			Exit: func(ret *ast.ReturnStmt, lit *ast.FuncLit, st *fw.State) {
+				if lit != nil || !in.Final() || why != "" {
+					return
+				}
+				if ret == nil || len(ret.Results) == 0 {
+					why = fi.Name() + " has a bare return"
+					return
+				}
+				e := ast.Unparen(ret.Results[len(ret.Results)-1])
+				switch x := e.(type) {
+				case *ast.CompositeLit:
+					if len(x.Elts) == 0 {
+						why = "empty literal at " + p.Pos(ret.Pos())
+					}
+				case *ast.CallExpr:
+					callee := p.FuncOf(fw.Callee(info, x))
+					if callee == nil {
+						why = "result of an unresolved call at " + p.Pos(ret.Pos())
+					} else if w := whyEmpty(callee, depth+1); w != "" {
+						why = "returns the result of " + callee.Name() + " (" + w + ")"
+					}
+				case *ast.Ident:
+					o := info.ObjectOf(x)
+					if asTargets[o] && st.Must("extracted:"+x.Name) {
+						return
+					}
+					for _, c := range appendedIn[o] {
+						if st.Must("nonempty:" + c) {
+							return
+						}
+					}
+					why = x.Name + " may be nil or empty at " + p.Pos(ret.Pos())
+				default:
+					why = "unrecognised result at " + p.Pos(ret.Pos())
+				}
+			},
+		}
+		in.Run(nil)
+		memo[fi] = why
+		return why
+	}
+	for _, fi := range targets {
+		w := whyEmpty(fi, 0)
+		r.Check(w == "", "C19-R15", fi.Name()+"/error-payload-never-empty", p.Pos(fi.Decl.Pos()), fi.Name()+" returns a non-empty error list on every path",
+			fi.Name()+" can return a nil or empty list ("+w+"): the terminal message is written as {\"type\":\"error\",\"payload\":null}, which graphql-transport-ws clients answer by closing with 4400 and which tells no client why its operation died")
+	}
+	r.Expect("C19-R15", "functions that build the payload of an error message", len(targets), 1)
 }
